@@ -19,6 +19,7 @@
 From Coq Require Import List String Bool Arith Permutation Relations.
 From Verif Require Import Lib.Path Caco.Names Caco.Load Caco.LoadProofs Caco.LoadGen Gen.CacoBuild.
 From Verif Require Import Caco.LoadNames Caco.LoadNamesProofs.
+From Verif Require Import Caco.LoadOutCycle Caco.LoadSession Caco.LoadSessionGen.
 Import ListNotations.
 Local Open Scope string_scope.
 
@@ -163,6 +164,108 @@ Theorem C11_loader_shape_frozen :
 Proof. exact gen_loader_shape. Qed.
 Print Assumptions C11_loader_shape_frozen.
 
+(** ** Cycles through output files (Caco/LoadOutCycle.v)
+
+    [graph_problem] speaks of [dedge], whose edges are those of every
+    declared node - rules AND the output files they declare, each output
+    leading to its rule.  Stated on its own: a rule that reaches one of its own
+    output files (a file set listing the [.fileset] of another rule that
+    includes it, or its own) is reported whenever a requested name reaches it,
+    whatever node of the cycle the walk meets first. *)
+Theorem C11_cycle_through_output_reported : forall fs roots kind ts t q ds r deps outs o,
+  reached fs roots q -> lookup q fs = Some ds -> In (DRule r deps outs) ds -> In o outs ->
+  clos_trans name (dedge fs roots) r o ->
+  In t ts -> clos_refl_trans name (dedge fs roots) t r ->
+  exists es, c11_run fs roots kind ts = CErr es /\ es <> [].
+Proof. exact cycle_through_output_reported. Qed.
+Print Assumptions C11_cycle_through_output_reported.
+
+Theorem C11_own_output_listed_reported : forall fs roots kind ts t q ds r deps outs o,
+  reached fs roots q -> lookup q fs = Some ds -> In (DRule r deps outs) ds -> In o outs ->
+  In o deps ->
+  In t ts -> clos_refl_trans name (dedge fs roots) t r ->
+  exists es, c11_run fs roots kind ts = CErr es /\ es <> [].
+Proof. exact own_output_listed_reported. Qed.
+Print Assumptions C11_own_output_listed_reported.
+
+(** A loader that puts a rule's outputs into [loaded] when it STARTS loading
+    the rule misses such a cycle when the walk enters it at that rule; the
+    model's (and the code's) [load1] reports it from every entry point. *)
+Theorem C11_early_outputs_miss_cycle_refuted :
+  (match load1_early oc_nodes (fun _ => KNone) 10 "p/r" (mkL [] [] []) with
+   | Some s => l_errs s | None => [EOther] end) = [] /\
+  (match load1_early oc_nodes (fun _ => KNone) 10 "p/self" (mkL [] [] []) with
+   | Some s => l_errs s | None => [EOther] end) = [] /\
+  (match load1 oc_nodes (fun _ => KNone) 10 "p/r" (mkL [] [] []) with
+   | Some s => l_errs s | None => [] end) = [ECycle ["p/r"; "q/mid"; "p/r.fileset"]] /\
+  (match load1 oc_nodes (fun _ => KNone) 10 "q/mid" (mkL [] [] []) with
+   | Some s => l_errs s | None => [] end) = [ECycle ["q/mid"; "p/r.fileset"; "p/r"]] /\
+  (match load1 oc_nodes (fun _ => KNone) 10 "p/r.fileset" (mkL [] [] []) with
+   | Some s => l_errs s | None => [] end) = [ECycle ["p/r.fileset"; "p/r"; "q/mid"]] /\
+  (match load1 oc_nodes (fun _ => KNone) 10 "p/self" (mkL [] [] []) with
+   | Some s => l_errs s | None => [] end) = [ECycle ["p/self"; "p/self.fileset"]].
+Proof. exact early_outputs_miss_cycle_refuted. Qed.
+Print Assumptions C11_early_outputs_miss_cycle_refuted.
+
+(** ** Several Build calls on one Builder (Caco/LoadSession.v)
+
+    The loader lives for one [loadNodes] call, which is read off the current
+    source on every run: [loadNodes] begins with [newLoader(env)], whose tables
+    are made on the spot; the only fields of the Builder's [env] ever assigned
+    are the workspace memo and the two per-call hooks; [env] and [loader] have
+    the frozen fields; a node enters a [loaded] map only at the two places of
+    [load1], after its dependencies were loaded. *)
+Theorem C11_loader_is_made_per_call :
+  loader_policy_of_source = LoaderPerBuild /\ loader_per_loadb = true /\ env_writes_frozenb = true /\
+  env_layout_frozenb = true /\ loaded_stores_frozenb = true /\ load1_order_okb = true.
+Proof. exact gen_loader_made_per_build. Qed.
+Print Assumptions C11_loader_is_made_per_call.
+
+(** With the loader policy of the current source, every call of a sequence
+    of Build calls on ONE Builder gives what that call alone gives, whatever
+    was built (or failed to load) before and whatever the Builder held. *)
+Theorem C11_one_builder_each_call_alone : forall fs roots kind calls held,
+  lrun loader_policy_of_source fs roots kind calls held = map (c11_run fs roots kind) calls.
+Proof. exact source_lrun_per_call. Qed.
+Print Assumptions C11_one_builder_each_call_alone.
+
+Theorem C11_one_builder_error_iff : forall fs roots kind calls held k ts,
+  nth_error calls k = Some ts ->
+  (exists es, nth_error (lrun loader_policy_of_source fs roots kind calls held) k = Some (CErr es) /\ es <> []) <->
+  read_problem fs roots \/ graph_problem fs roots kind ts.
+Proof. exact source_lrun_error_iff. Qed.
+Print Assumptions C11_one_builder_error_iff.
+
+Theorem C11_one_builder_exec_sound : forall fs roots kind calls held k ts ex,
+  nth_error calls k = Some ts ->
+  nth_error (lrun loader_policy_of_source fs roots kind calls held) k = Some (CExec ex) ->
+  NoDup ex /\ (forall r, In r ex <-> reachable_rule fs roots ts r).
+Proof. exact source_lrun_exec_sound. Qed.
+Print Assumptions C11_one_builder_exec_sound.
+
+(** A loader kept across calls loses this, because [load1] puts a node into
+    [loaded] even when loading its dependencies reported an error: after a call
+    that failed on a dangling dependency, the same call again reports no load
+    error and the build walk starts ([CMissing]: it stops at the missing node,
+    after executing what precedes it) ... *)
+Theorem C11_kept_loader_misses_dangling_refuted :
+  lrun LoaderKept kl_files ["p0"; "p1"] kl_kind [["p0/d"]; ["p0/d"]; ["p0/top"]] [] =
+    [CErr [EStat "p0/nothing"]; CMissing; CMissing] /\
+  lrun LoaderPerBuild kl_files ["p0"; "p1"] kl_kind [["p0/d"]; ["p0/d"]; ["p0/top"]] [] =
+    [CErr [EStat "p0/nothing"]; CErr [EStat "p0/nothing"]; CErr [EStat "p0/nothing"]].
+Proof. exact kept_loader_misses_dangling_refuted. Qed.
+Print Assumptions C11_kept_loader_misses_dangling_refuted.
+
+(** ... and after a call that failed on a cycle, the same call again reports
+    no error and the build walk does not terminate. *)
+Theorem C11_kept_loader_misses_cycle_refuted :
+  lrun LoaderKept kl_files ["p0"; "p1"] kl_kind [["p1/x"]; ["p1/x"]] [] =
+    [CErr [ECycle ["p1/x"; "p1/y"]]; COutOfFuel] /\
+  lrun LoaderPerBuild kl_files ["p0"; "p1"] kl_kind [["p1/x"]; ["p1/x"]] [] =
+    [CErr [ECycle ["p1/x"; "p1/y"]]; CErr [ECycle ["p1/x"; "p1/y"]]].
+Proof. exact kept_loader_misses_cycle_refuted. Qed.
+Print Assumptions C11_kept_loader_misses_cycle_refuted.
+
 (** ** Non-vacuity: concrete workspaces on which the statements bite. *)
 
 Definition ex_kind : name -> skind := kind_of ["p0/x.txt"] [""; "p0"; "p0/s"].
@@ -289,3 +392,14 @@ Proof.
   - now left.
   - right. vm_compute. reflexivity.
 Qed.
+
+(** a cycle through output files, by the theorem, on a concrete workspace *)
+Example C11_nonvacuous_output_cycle :
+  let fs := [("p", [DRule "p/leaf" [] ["p/leaf.fileset"]; DRule "p/r" ["p/leaf"; "q/mid"] ["p/r.fileset"]]);
+             ("q", [DRule "q/mid" ["p/r.fileset"] ["q/mid.fileset"]])] in
+  c11_run fs ["p"; "q"] (fun _ => KNone) ["p/leaf"; "p/r"] = CErr [ECycle ["p/r"; "q/mid"; "p/r.fileset"]] /\
+  c11_run fs ["p"; "q"] (fun _ => KNone) ["q/mid"] = CErr [ECycle ["q/mid"; "p/r.fileset"; "p/r"]] /\
+  c11_run fs ["p"; "q"] (fun _ => KNone) ["p/leaf"] = CExec ["p/leaf"] /\
+  lrun loader_policy_of_source fs ["p"; "q"] (fun _ => KNone) [["p/leaf"]; ["p/r"]; ["p/leaf"]] [] =
+    [CExec ["p/leaf"]; CErr [ECycle ["p/r"; "q/mid"; "p/r.fileset"]]; CExec ["p/leaf"]].
+Proof. vm_compute. repeat split. Qed.
